@@ -31,10 +31,12 @@ CONSTANTS Mixes,        \* set of command mixes; a mix is a sequence of kinds, t
           MaxBreaks,    \* budget: times the sessions / archives directory becomes unavailable (saves and removals fail)
           Export,       \* TRUE: keep the harness-controllable events of the behaviour in s.h
           RunToBlock,   \* TRUE: the environment (harness) acts only when neither the loop nor a command can move on its own
+          TrackInterrupts, \* TRUE: remember at which blocking points a pause / shutdown landed (vacuity runs only)
           Mut           \* "none", or the name of a seeded mutation of the algorithm (to show that the invariants bite)
 
 VARIABLE s
 
+InterruptPhases == {"poll", "scanning", "stagingA", "stagingB", "transitioning"}
 \* ------------------------------------------------------------------ events
 E(side, op, phase, res, anc, tree) == [side |-> side, op |-> op, phase |-> phase, res |-> res, anc |-> anc, tree |-> tree]
 Ev(side, op, phase) == E(side, op, phase, "ok", Nil, Nil)
@@ -78,6 +80,7 @@ InitState(kinds, sp) ==
       result |-> [i \in DOMAIN kinds |-> "none"],
       edits |-> 0, events |-> 0, faults |-> 0, ticks |-> 0, breaks |-> 0,
       broken |-> {},         \* of {"sessions", "archives"}: the directory is unavailable, saving / removing in it fails
+      intr |-> {},           \* blocking points of the loop at which a pause / shutdown has landed (Interrupt)
       cp |-> [i \in DOMAIN kinds |-> <<>>],      \* where the loop stood, and who was in flight, when command i was called
       m |-> m2, h |-> <<>>]
 
@@ -108,7 +111,7 @@ SaveArchive(t, tree) == IF ArchiveOK(t) THEN [t EXCEPT !.archive = tree] ELSE t
 \* the environment makes a directory unavailable / available again
 BreakSteps(t) ==
   (IF t.breaks < MaxBreaks /\ ~(\E j \in Ids(t) : KindOf(t, j) = "restart" /\ InFlight(t, j))
-   THEN {H([t EXCEPT !.breaks = @ + 1, !.broken = @ \cup {d}], [a |-> "break", what |-> d]) : d \in {"sessions", "archives"} \ t.broken}
+   THEN {H([t EXCEPT !.breaks = @ + 1, !.broken = @ \cup {d}, !.m = MBreak(@)], [a |-> "break", what |-> d]) : d \in {"sessions", "archives"} \ t.broken}
    ELSE {})
   \cup {H([t EXCEPT !.broken = @ \ {d}], [a |-> "restore", what |-> d]) : d \in t.broken}
 
@@ -150,8 +153,9 @@ SaveAndFinish(t0) ==
       okSides == {x \in Sides : t.tres[x] \in {"ok", "missing"}}
       changes == t.plan.anc \o (IF "alpha" \in okSides THEN ResultsOf(t, "alpha") ELSE <<>>)
                             \o (IF "beta" \in okSides THEN ResultsOf(t, "beta") ELSE <<>>)
-      anc2 == IF changes = <<>> THEN t.anc ELSE ApplySeq(t.anc, changes)
-      u == [(IF changes = <<>> THEN t ELSE SaveArchive(t, anc2)) EXCEPT !.anc = anc2, !.pendT = {}, !.tres = [x \in Sides |-> "none"]]
+      lose == Mut = "lose_interrupted_results" /\ t.cancelled
+      anc2 == IF changes = <<>> \/ lose THEN t.anc ELSE ApplySeq(t.anc, changes)
+      u == [(IF changes = <<>> \/ lose THEN t ELSE SaveArchive(t, anc2)) EXCEPT !.anc = anc2, !.pendT = {}, !.tres = [x \in Sides |-> "none"]]
       miss == \E x \in Sides : t.tres[x] = "missing"
   IN IF changes # <<>> /\ ~ArchiveOK(t) THEN SyncReturn(u, FALSE)        \* "unable to save ancestor"
      ELSE IF \E x \in Sides : t.tres[x] = "err" THEN SyncReturn(u, FALSE)
@@ -198,7 +202,8 @@ TransReturn(t, x) ==
         LET v == [u EXCEPT !.pendT = @ \ {x}, !.tres[x] = out,
                            !.da = IF x = "alpha" /\ out # "err" THEN ApplySeq(@, SetToSeq(t.plan.alpha)) ELSE @,
                            !.db = IF x = "beta" /\ out # "err" THEN ApplySeq(@, SetToSeq(t.plan.beta)) ELSE @]
-        IN IF v.pendT = {} THEN SaveAndFinish(v) ELSE v
+            w == [v EXCEPT !.m = MRoots(@, Roots(v))]          \* the walker looks at both roots after every step
+        IN IF w.pendT = {} THEN SaveAndFinish(w) ELSE w
   IN {Done(Ret("ok"), "ok")}
      \cup (IF Budget(t) THEN {Done(Fault(Ret("missing")), "missing"), Done(Fault(Ret("err")), "err")} ELSE {})
 
@@ -306,6 +311,7 @@ CmdSteps(t, i) ==
   CASE pc = "idle" ->
          IF RestartInFlight(t) THEN {}      \* the daemon is going down / coming up: nobody can issue commands
          ELSE LET u == H([t EXCEPT !.m = MCall(@, i, k),
+                                   !.intr = IF TrackInterrupts /\ k \in {"pause", "restart"} /\ t.lpc \in InterruptPhases THEN @ \cup {t.lpc} ELSE @,
                                    !.cp[i] = IF Export THEN <<t.lpc, {j \in Ids(t) : InFlight(t, j)}>> ELSE <<>>],
                          [a |-> "call", id |-> i, kind |-> k]) IN
               IF k = "restart" /\ t.broken # {} THEN {}     \* the daemon is not restarted while a directory is away
@@ -391,11 +397,17 @@ CmdSteps(t, i) ==
     [] OTHER -> {}
 
 Command(i) == s' \in CmdSteps(s, i)
+\* Interrupt(phase): a pause or a manager shutdown is issued while the loop stands at that blocking point - inside the
+\* poll select, inside Scan, inside Stage, or inside the transition phase (Transition issued, not all returned)
+Interrupt(ph) == \E i \in Ids(s) : /\ KindOf(s, i) \in {"pause", "restart"} /\ s.cpc[i] = "idle" /\ s.lpc = ph
+                                   /\ Command(i)
 
 \* Steps the real system takes on its own, without the harness doing anything: a command that has been called runs until
 \* it blocks; the loop runs until it blocks on an endpoint operation or in the poll select.  (The harness's moves are:
 \* call a command, edit a root, report a poll event, let a gated endpoint operation return.)
 GatePcs == {"scanning", "stagingA", "stagingB", "transitioning"}
+\* vacuity control for the interrupt configurations: expected to be VIOLATED (every phase is interrupted somewhere)
+NeverInterrupted(ph) == ph \notin s.intr
 InternalSteps(t) ==
   (IF t.lpc \in GatePcs THEN {} ELSE IF t.lpc = "poll" THEN PollInternal(t) ELSE LoopSteps(t) \ TimerSteps(t))
   \cup UNION {IF t.cpc[i] = "idle" THEN {} ELSE CmdSteps(t, i) : i \in Ids(t)}
